@@ -66,7 +66,7 @@ int main(int argc, char** argv)
 			for (int i = 0; i + 1 < p.length(); i++) if (p[i] == '.' && p[i + 1] == '.') { printf("REPRODUCED target \"%s\": request.path() still contains \"..\" (length %d)\n", t, p.length()); return 1; } }
 		{ Dic<> q = Url::parseQuery("a=1%26b%3D2&c=%2B+d&e=x%3Dy&f="); if (q.length() != 4 || q["a"] != "1&b=2" || q["c"] != "+ d" || q["e"] != "x=y" || q["f"] != "") { printf("REPRODUCED parseQuery: an encoded '&', '=' or '+' acted as a delimiter / space (a='%s' c='%s' e='%s', %d entries)\n", *q["a"], *q["c"], *q["e"], q.length()); return 1; } }
 		{ Dic<> q2 = Url::parseQuery("tel=%2B34+600&sum=1%2B1%3D2&b64=ab%2Bcd%2F%3D&sp=a+b"); if (q2["tel"] != "+34 600" || q2["sum"] != "1+1=2" || q2["b64"] != "ab+cd/=" || q2["sp"] != "a b") { printf("REPRODUCED parseQuery: a literal plus sent as %%2B arrives as '%s' / '%s'\n", *q2["tel"], *q2["sum"]); return 1; } }
-		{ const char* urls[] = { "http://h:80/p?q#f", "[/]:80", "http://[::1]:8080/x", "h", "", ":", "//", "http://", "http://h:/", "a:b@c:1/d", "http://h:99999999999/", "x://[", "?", "#", "http://h/p#f?q" };
+		{ const char* urls[] = { "http://h:80/p?q#f", "[/]:80", "http://[::1]:8080/x", "h", "", ":", "//", "http://", "http://h:/", "a:b@c:1/d", "http://h:99999999999/", "x://[", "?", "#", "http://h/p#f?q", "http://[fe80::1:fe80::1", "http://[::1:2:3", "[", "http://[" };
 		  for (const char* u : urls) { Url x(u); String d = Url::decode(u); (void)x; (void)d; } }
 		printf("OK\n"); return 0;
 	}
